@@ -60,12 +60,15 @@ def xml_flag_paths(prog, f):
 
         def primitive(self, it, fr, n, callee, depth):
             obj, args = it.call_args(fr, n)
+            h = it.prog.funcs.get(callee['id']) if callee.get('repo') else None
+            if h is not None and h.body is not None and 'pugixml_archive.h' in h.relfile and depth < it.max_depth and len(list(h.walk())) < 200:
+                return NotImplemented       # small helpers of the adapter that compute the flags from the options
             vals = [it.ev(fr, a, depth) for a in args]
             if callee.get('n') == 'save' and callee['q'].startswith('pugi::'):
                 it.act('SAVE', vals[2] if len(vals) > 2 else TOP, 'basic_ostream' in callee.get('id', ''))
             return TOP
 
-    it = Interp(prog, M(), max_depth=0, max_paths=64)
+    it = Interp(prog, M(), max_depth=2, max_paths=64)
 
     def init(it_, fr):
         for p in f.params:
@@ -165,7 +168,8 @@ def run(prog, rep):
                 if n['k'] == 'CXXConstructExpr' and f.type(n).startswith('rapidjson::AutoUTFOutputStream') and len(n.get('c', [])) >= 3:
                     n_json += 1
                     rep.touch(f)
-                    a1, a2 = n['c'][1], n['c'][2]
+                    from bsv.expr import resolve as _res
+                    a1, a2 = _res(f, n['c'][1]) or n['c'][1], _res(f, n['c'][2]) or n['c'][2]
                     c1 = [x for x in f.walk(a1) if x['k'] == 'CallExpr' and (f.callee(x) or {}).get('n') == 'ToRapidUtfType']
                     ok1 = bool(c1) and 'encoding' in member_names(f, a1)
                     ok2 = member_names(f, a2)[:1] == ['writeBom']
@@ -180,6 +184,11 @@ def run(prog, rep):
                     if c0 is None or 'enableFormat' not in member_names(f, c0) or c0.get('cv') is not None:
                         continue
                     then, els = child(n, 'then'), child(n, 'else')
+                    e0, neg = strip(c0), False
+                    while e0 is not None and e0['k'] == 'UnaryOperator' and e0.get('op') == '!':
+                        neg, e0 = not neg, strip(e0['c'][0])
+                    if neg and els is not None:
+                        then, els = els, then           # `if (!enableFormat) compact else pretty`
                     tw = [f.type(x) for x in f.walk(then) if x['k'] == 'CXXConstructExpr' and 'Writer<' in f.type(x)]
                     ew = [f.type(x) for x in f.walk(els) if x['k'] == 'CXXConstructExpr' and 'Writer<' in f.type(x)] if els else []
                     ind = [x for x in f.walk(then) if x['k'] == 'CXXMemberCallExpr' and (f.callee(x) or {}).get('n') == 'SetIndent']
